@@ -304,6 +304,15 @@ def execute(case: dict) -> dict:
                 ref.set_cookie(sc, url, clock.now)
                 jar.update_cookies_from_headers([set_cookie_header(sc)], URL(f"{url[0]}://{url[1]}{url[2]}"))
                 history.append((sc, url))
+            elif kind == "set_plain":
+                # the other way in: jar.update_cookies({name: value}, url) - a host-only cookie with the default path
+                _, name, url = op
+                url = tuple(url)
+                counter += 1
+                sc = {"name": name, "value": f"v{counter}"}
+                ref.set_cookie(sc, url, clock.now)
+                jar.update_cookies({name: sc["value"]}, URL(f"{url[0]}://{url[1]}{url[2]}"))
+                history.append((sc, url))
             elif kind == "reissue":
                 # the same cookie again (same name, value, path, attributes) from the same URL, but with the Domain attribute
                 # toggled between absent (host-only) and the request host (domain cookie): same storage key, other scope
@@ -418,6 +427,7 @@ def cases(draw, trailing_slash: bool = False):
         st.tuples(st.just("tick"), st.sampled_from([1, 5, 6, 50, 100])),
         st.just(("saveload",)),
         st.just(("reissue",)),
+        st.tuples(st.just("set_plain"), st.sampled_from(["a", "b"]), url),
         st.tuples(st.just("churn"), st.sampled_from([30, 101, 130, 220]), st.sampled_from([[300], [300, 200], [7, 300], [3]]), url),
         st.sampled_from([("clear",), ("clear_name", "a"), ("clear_domain", "example.com"), ("clear_domain", "sub.example.com")]),
     )
